@@ -73,19 +73,25 @@ structure RecHeader where
   hlen : Nat
   deriving Repr, DecidableEq
 
+/-- `readCanonicalUvarint`: a varint as the writer encodes it; zero-padded encodings are rejected -/
+def canonDec (w : Win) (bs : Bytes) : Except Err (Nat × Nat) := do
+  let (v, n) ← w.map (uvarintDec bs)
+  if n > 1 ∧ bs.getD (n - 1) 0 = 0 then throw .nonCanonical
+  pure (v, n)
+
 /-- `readRecordHeaderV4` -/
 def readHeader (w : Win) : Except Err RecHeader := do
-  let (m, c1) ← w.map (uvarintDec w.bytes)
+  let (m, c1) ← canonDec w w.bytes
   if m ≠ magicNumber then throw .magic
   match w.bytes.drop c1 with
   | [] => throw w.end0
   | nb :: rest =>
-    let (ulen, c2) ← w.map (uvarintDec rest)
+    let (ulen, c2) ← canonDec w rest
     let rest2 := rest.drop c2
-    let (clen, c3) ← w.map (uvarintDec rest2)
+    let (clen, c3) ← canonDec w rest2
     let consumed := c1 + 1 + c2 + c3
     let actual := crc32c (w.bytes.take consumed)
-    let (expected, c4) ← w.map (uvarintDec (rest2.drop c3))
+    let (expected, c4) ← canonDec w (rest2.drop c3)
     if actual.toNat ≠ expected then throw .headerCrc
     pure { ulen := ulen, clen := clen, isNil := nb == 1, hlen := consumed + c4 }
 
